@@ -3,10 +3,11 @@
 import json, sys
 pid = sys.argv[1]
 n = sys.argv[2] if len(sys.argv) > 2 else "2"
+base = sys.argv[3] if len(sys.argv) > 3 else "/tmp/mut"
 p = [json.loads(l) for l in open('/verif/properties.jsonl') if json.loads(l)['id'] == pid][0]
 print(f"""You are helping to evaluate a verification effort for the Python library RDFLib/pySHACL (a W3C SHACL validator).
-You have your own scratch git worktree of the library at /tmp/mut/{pid} (a detached checkout of the current commit). Work ONLY inside that directory (never touch /repo or /verif, and do not read /verif).
-To run code against your worktree use:  cd /tmp/mut/{pid} && PYTHONPATH=/tmp/mut/{pid} /venv/bin/python ...   (check with `import pyshacl; print(pyshacl.__file__)` that your copy is imported). There is no network.
+You have your own scratch git worktree of the library at {base}/{pid} (a detached checkout of the current commit). Work ONLY inside that directory (never touch /repo or /verif, and do not read /verif).
+To run code against your worktree use:  cd {base}/{pid} && PYTHONPATH={base}/{pid} /venv/bin/python ...   (check with `import pyshacl; print(pyshacl.__file__)` that your copy is imported). There is no network.
 
 Here is a semantic property of pySHACL that is supposed to hold:
 
@@ -18,10 +19,10 @@ Here is a semantic property of pySHACL that is supposed to hold:
 
 Your task: produce {n} DIFFERENT realistic code changes (bugs a maintainer could plausibly introduce: an off-by-one, a wrong operator, a dropped copy, a reordered statement, a cache added, a missing branch, two cooperating sites that each look fine alone ...) to pySHACL's source, each of which BREAKS this property while
   (a) the package still imports/compiles, and
-  (b) the existing test suite still passes:  cd /tmp/mut/{pid} && PATH=/venv/bin:$PATH PYTHONPATH=/tmp/mut/{pid} /venv/bin/python -m pytest -q -p no:cacheprovider --timeout=900 -q test/ --deselect test/issues/test_108.py --deselect test/issues/test_154.py --ignore=test/test_js --deselect test/test_extra.py::test_web_retrieve --deselect test/test_extra.py::test_web_retrieve_fail --deselect test/test_extra.py::test_owl_imports --deselect test/test_extra.py::test_owl_imports_fail   (about 3.5 minutes; some tests fail on the unchanged tree already because there is no network or a JS module is missing: test_108, test_154, test_js/*, test_extra web/owl_imports, test_cmdline.py::test_cmdline_web and ::test_cmdline_jsonld - ignore exactly those; run the baseline once yourself to get the reference set of failures). The same set of tests must pass with your change as without it.
+  (b) the existing test suite still passes:  cd {base}/{pid} && PATH=/venv/bin:$PATH PYTHONPATH={base}/{pid} /venv/bin/python -m pytest -q -p no:cacheprovider --timeout=900 -q test/ --deselect test/issues/test_108.py --deselect test/issues/test_154.py --ignore=test/test_js --deselect test/test_extra.py::test_web_retrieve --deselect test/test_extra.py::test_web_retrieve_fail --deselect test/test_extra.py::test_owl_imports --deselect test/test_extra.py::test_owl_imports_fail   (about 3.5 minutes; some tests fail on the unchanged tree already because there is no network or a JS module is missing: test_108, test_154, test_js/*, test_extra web/owl_imports, test_cmdline.py::test_cmdline_web and ::test_cmdline_jsonld - ignore exactly those; run the baseline once yourself to get the reference set of failures). The same set of tests must pass with your change as without it.
 Prefer changes that need something SPECIFIC to manifest (an unusual input, a particular option combination, a multi-step sequence of calls, a fault at a particular point, a particular nesting or ordering) rather than ones any ordinary use would expose at once. The change must make the library violate the property as stated above on some input within the property's quantifier; it must not be a change to tests, and must be small (ideally under 15 changed lines).
 
-For each change i = 1..{n} deliver, in /tmp/mut/{pid}/out/m<i>/ :
+For each change i = 1..{n} deliver, in {base}/{pid}/out/m<i>/ :
   - patch.diff  : `git diff` of the change against the pinned commit (it must apply with `git apply` on a clean checkout; only files under pyshacl/),
   - demo.py     : a small standalone program using only the public API (pyshacl.validate / shacl_rules / python -m pyshacl) that exits 0 and prints PASS on the UNCHANGED code and exits 1 and prints FAIL with the change applied. It should demonstrate the violation of the property directly (e.g. compare against the expected result the property prescribes), be deterministic, and need no network,
   - note.txt    : 3-6 lines: what the change is, what it needs in order to manifest, and confirmation (with the commands you ran) that the test suite result is unchanged and that demo.py passes without / fails with the change.
